@@ -16,6 +16,7 @@ import (
 	"google.golang.org/grpc/internal/xds/bootstrap"
 	"google.golang.org/grpc/internal/xds/clients"
 	"google.golang.org/grpc/internal/xds/clients/lrsclient"
+	"google.golang.org/grpc/internal/xds/clusterspecifier"
 	gxdsclient "google.golang.org/grpc/internal/xds/clients/xdsclient"
 	"google.golang.org/grpc/internal/xds/httpfilter"
 	_ "google.golang.org/grpc/internal/xds/httpfilter/router"
@@ -34,14 +35,15 @@ import (
 //	rds <r,r,...>     the management server sends a RouteConfiguration with one route per item; an item
 //	                  is a cluster c (prefix "/c<c>/" -> cluster c<c>) or c+c'+… (one route with several
 //	                  weighted clusters); the same cluster may be named by several routes / several
-//	                  times in one route; CDS/EDS resources are answered at once
+//	                  times in one route; an item p<k> is a route whose action is the cluster specifier
+//	                  plugin p<k>; CDS/EDS resources are answered at once
 //	pause             a callback that blocks is put at the end of the resolver's serializer queue
 //	                  (updates from the dependency manager queue up behind it)
 //	next              the oldest blocking callback returns: the updates behind it are processed, up to
 //	                  the next blocking callback
 //	select <id> <c>   SelectConfig on the config selector last given to the channel, method /c<c>/m
 //	commit <id>       the RPC's OnCommitted is called (again and again if asked)
-//	-> [ok|err:..] sc=<children of the last service config> xc=<XDSConfig.Clusters of the last state> act=<activeClusters name=refCount>
+//	-> [ok|err:..] sc=<children of the last service config> xc=<XDSConfig.Clusters of the last state> act=<activeClusters name=refCount> pl=<activePlugins name=refCount> sel=<cur: the installed config selector is the newest one the channel was ever given | old | ->
 
 type crWatcher struct {
 	w  gxdsclient.ResourceWatcher
@@ -128,6 +130,7 @@ type crCC struct {
 	state  resolver.State
 	pushes int
 	errs   int
+	sels   []iresolver.ConfigSelector // every distinct config selector given to the channel, in order
 }
 
 func (cc *crCC) UpdateState(s resolver.State) error {
@@ -135,6 +138,17 @@ func (cc *crCC) UpdateState(s resolver.State) error {
 	defer cc.mu.Unlock()
 	cc.state = s
 	cc.pushes++
+	if cs := iresolver.GetConfigSelector(s); cs != nil {
+		known := false
+		for _, x := range cc.sels {
+			if x == cs {
+				known = true
+			}
+		}
+		if !known {
+			cc.sels = append(cc.sels, cs)
+		}
+	}
 	return nil
 }
 func (cc *crCC) ReportError(error) { cc.mu.Lock(); cc.errs++; cc.mu.Unlock() }
@@ -204,7 +218,11 @@ func (h *clusterRefs) status() string {
 				for _, m := range parsed.LoadBalancingConfig {
 					for _, v := range m {
 						for k := range v.Children {
-							sc = append(sc, strings.TrimPrefix(strings.TrimPrefix(k, "cluster:"), "c"))
+							if strings.HasPrefix(k, "cluster_specifier_plugin:") {
+								sc = append(sc, strings.TrimPrefix(k, "cluster_specifier_plugin:"))
+							} else {
+								sc = append(sc, strings.TrimPrefix(strings.TrimPrefix(k, "cluster:"), "c"))
+							}
 						}
 					}
 				}
@@ -219,19 +237,43 @@ func (h *clusterRefs) status() string {
 			}
 		}
 	}
-	var act []string
+	var act, pl []string
 	for _, e := range xdsresolver.VerifActiveClusters(h.r) {
 		act = append(act, strings.TrimPrefix(strings.TrimPrefix(e, "cluster:"), "c"))
 	}
+	for _, e := range xdsresolver.VerifActivePlugins(h.r) {
+		pl = append(pl, strings.TrimPrefix(e, "cluster_specifier_plugin:"))
+	}
+	// is the config selector the channel has now the newest one it was ever given?
+	sel := "-"
+	if cs := iresolver.GetConfigSelector(st); cs != nil {
+		h.cc.mu.Lock()
+		if len(h.cc.sels) > 0 && h.cc.sels[len(h.cc.sels)-1] == cs {
+			sel = "cur"
+		} else {
+			sel = "old"
+		}
+		h.cc.mu.Unlock()
+	}
+	// clusters (numbers) first, then plugins (p<k>), each group by number
+	key := func(x string) int {
+		x = strings.Split(x, "=")[0]
+		if strings.HasPrefix(x, "p") {
+			n, _ := strconv.Atoi(x[1:])
+			return 1000 + n
+		}
+		n, _ := strconv.Atoi(x)
+		return n
+	}
 	num := func(l []string) string {
-		sort.Slice(l, func(i, j int) bool { a, _ := strconv.Atoi(strings.Split(l[i], "=")[0]); b, _ := strconv.Atoi(strings.Split(l[j], "=")[0]); return a < b })
+		sort.Slice(l, func(i, j int) bool { return key(l[i]) < key(l[j]) })
 		if len(l) == 0 {
 			return "-"
 		}
 		return strings.Join(l, ",")
 	}
 	_ = n
-	return fmt.Sprintf("sc=%s xc=%s act=%s", num(sc), num(xc), num(act))
+	return fmt.Sprintf("sc=%s xc=%s act=%s pl=%s sel=%s", num(sc), num(xc), num(act), num(pl), sel)
 }
 
 func (h *clusterRefs) Op(f []string) string {
@@ -243,9 +285,16 @@ func (h *clusterRefs) Op(f []string) string {
 		// route gets the extra prefix "/c<c>x<k>/" so that the same cluster can be the target of
 		// several routes (a specific route and a default route to the same cluster, …)
 		var routes []*xdsresource.Route
+		plugins := map[string]clusterspecifier.BalancerConfig{}
 		seen := map[string]int{}
 		if f[1] != "-" {
 			for _, item := range strings.Split(f[1], ",") {
+				if strings.HasPrefix(item, "p") { // a route whose action is a cluster specifier plugin
+					p := "/" + item + "/"
+					routes = append(routes, &xdsresource.Route{Prefix: &p, ActionType: xdsresource.RouteActionRoute, ClusterSpecifierPlugin: item})
+					plugins[item] = clusterspecifier.BalancerConfig{{"pick_first": map[string]any{}}}
+					continue
+				}
 				cs := strings.Split(item, "+")
 				p := "/c" + cs[0] + "/"
 				if k := seen[cs[0]]; k > 0 {
@@ -260,7 +309,7 @@ func (h *clusterRefs) Op(f []string) string {
 			}
 		}
 		h.client.push(version.V3RouteConfigURL, "rc", &xdsresource.RouteConfigResourceData{Resource: xdsresource.RouteConfigUpdate{
-			VirtualHosts: []*xdsresource.VirtualHost{{Domains: []string{"*"}, Routes: routes}}}})
+			VirtualHosts: []*xdsresource.VirtualHost{{Domains: []string{"*"}, Routes: routes}}, ClusterSpecifierPlugins: plugins}})
 	case "pause":
 		h.release = append(h.release, xdsresolver.VerifPauseSerializer(h.r))
 	case "next":
@@ -278,7 +327,11 @@ func (h *clusterRefs) Op(f []string) string {
 			res = "err:nocs "
 			break
 		}
-		cfg, err := cs.SelectConfig(iresolver.RPCInfo{Context: context.Background(), Method: "/c" + f[2] + "/m"})
+		method := "/c" + f[2] + "/m"
+		if strings.HasPrefix(f[2], "p") {
+			method = "/" + f[2] + "/m"
+		}
+		cfg, err := cs.SelectConfig(iresolver.RPCInfo{Context: context.Background(), Method: method})
 		if err != nil {
 			res = "err:select "
 			break
